@@ -536,7 +536,7 @@ pub fn run(args: &RunArgs) -> i32 {
     let ctr = Counters { cases: AtomicU64::new(0), runs: AtomicU64::new(0), located: AtomicU64::new(0), outcomes: DistinctSet::new() };
     let distinct = DistinctSet::new();
     let sample: Mutex<Option<J>> = Mutex::new(None);
-    let (slots, dev, budget) = if args.quick() { (2, 2, 45) } else { (3, 3, 2400) };
+    let (slots, dev, budget) = if args.quick() { (2, 3, 45) } else { (3, 4, 3000) };
     // two default command lines, so that "generate with faults" and "check only" are both within the bound
     let mut per_base = serde_json::Map::new();
     let mut edges = 0u64;
